@@ -13,6 +13,7 @@ pub(crate) mod from_unpacked_record_impls;
 pub(crate) mod record;
 pub(crate) mod record_impl;
 pub mod serde;
+pub(crate) mod thread_safety;
 
 /// Trait to implement to implement any specific fragment of record definitions.
 ///
